@@ -23,14 +23,14 @@ const (
 	oAPPEND    = 0x400
 	oDIRECTORY = 0x10000
 
-	eNOENT  = 2
-	eIO     = 5
-	eBADF   = 9
-	eEXIST  = 17
-	eNOTDIR = 20
-	eISDIR  = 21
-	eINVAL  = 22
-	eNOSPC  = 28
+	eNOENT    = 2
+	eIO       = 5
+	eBADF     = 9
+	eEXIST    = 17
+	eNOTDIR   = 20
+	eISDIR    = 21
+	eINVAL    = 22
+	eNOSPC    = 28
 	eNOTEMPTY = 39
 
 	sIFREG = 0x8000
@@ -69,10 +69,10 @@ type dirent struct {
 }
 
 type nsOp struct {
-	kind          string // "create", "mkdir", "unlink", "rename", "link"
-	dir, dir2     *Inode
-	name, name2   string
-	ino           *Inode
+	kind        string // "create", "mkdir", "unlink", "rename", "link"
+	dir, dir2   *Inode
+	name, name2 string
+	ino         *Inode
 }
 
 type fdesc struct {
@@ -93,16 +93,17 @@ type Kernel struct {
 	FaultsOn bool
 	// FailAlways: syscall name → errno; every invocation fails (persistent failure)
 	FailAlways map[string]int
-	Faulted  string
-	MaxFault int
-	nFault   int
-	CrashAt  int // syscall ordinal (1-based) that is not executed; 0 = never
-	crashed  bool
+	Faulted    string
+	MaxFault   int
+	nFault     int
+	CrashAt    int // syscall ordinal (1-based) that is not executed; 0 = never
+	crashed    bool
 	// durable namespace: snapshot taken lazily; pending namespace operations since
-	nsPending []nsOp
-	durRoot   map[*Inode][]*dirent // durable entries per directory (snapshot at first ns op)
-	ShortDir  bool                 // ReadDirent returns entries in nondeterministic chunks
-	touched   []string
+	nsPending  []nsOp
+	durRoot    map[*Inode][]*dirent // durable entries per directory (snapshot at first ns op)
+	ShortDir   bool                 // ReadDirent returns entries in nondeterministic chunks
+	ShortWrite bool                 // write(2) may transfer only a non-empty prefix of the data
+	touched    []string
 }
 
 type kernelCrash struct{}
@@ -446,6 +447,10 @@ func (k *Kernel) sysPwrite(fd int, data []*Term, off *Term, what string) (*Term,
 			m.end("bound", "pwrite offset beyond the modelled file size")
 		}
 		o = int(ov)
+	}
+	if k.ShortWrite && off == nil && len(data) > 1 {
+		// a short write: 1..len(data) bytes are transferred
+		data = data[:1+m.Choose(len(data), "short write")]
 	}
 	k.dataWrite(f.ino, &f.ino.vol, o, data)
 	f.ino.pending = append(f.ino.pending, dataOp{kind: "write", off: o, data: append([]*Term(nil), data...)})
@@ -1160,6 +1165,10 @@ func init() {
 		return m.S.Bool(crashed)
 	})
 	hreg("verifKernelReboot", func(m *Machine, fn *ssa.Function, a []Value) Value { m.K.Reboot(); return nil })
+	hreg("verifKernelShortWrite", func(m *Machine, fn *ssa.Function, a []Value) Value {
+		m.K.ShortWrite = a[0].(*Term).IsTrue()
+		return nil
+	})
 	hreg("verifKernelShortDir", func(m *Machine, fn *ssa.Function, a []Value) Value {
 		m.K.ShortDir = a[0].(*Term).IsTrue()
 		return nil
